@@ -412,6 +412,9 @@ func KeyCheck() {
 			if c.Params != nil && c.Zombie != "" {
 				sg = attemptSig(*c.Params, v)
 			}
+			if c.Params != nil && c.Params.Mix != "" {
+				sg = "C11:nest:literal-collection-of-run-time-arrays-of-different-lengths"
+			}
 			r.Report(ev.Finding{Sig: sg, What: v, Case: c})
 		}
 		r.Finish()
@@ -533,6 +536,9 @@ func KeyCheck() {
 			sg := keySig(v)
 			if literalNullJob(d, v) {
 				sg = "C11:nest:literal-null-element-runs-a-job"
+			}
+			if d.Mix != "" {
+				sg = "C11:nest:literal-collection-of-run-time-arrays-of-different-lengths"
 			}
 			r.Report(ev.Finding{Sig: sg, What: d.String() + ": " + v, Case: KeyCase{Params: &d}})
 		}
